@@ -22,7 +22,9 @@ from fractions import Fraction
 ROOT = os.path.dirname(os.path.dirname(os.path.abspath(__file__)))
 LEAN_DIR = os.path.join(ROOT, "lean")
 REPO = os.environ.get("VERIF_REPO", "/repo")
-EVID_DIR = os.path.join(ROOT, "evidence")
+# evidence is only (re)written by runs against /repo itself; development runs against a scratch
+# worktree (VERIF_REPO=...) or with a private driver (VERIF_MAIN=...) write elsewhere
+EVID_DIR = os.path.join(ROOT, "evidence" if (REPO == "/repo" and not os.environ.get("VERIF_MAIN")) else ".dev-evidence")
 REPLAY_DIR = os.path.join(ROOT, "replays")
 FINDINGS = os.path.join(ROOT, "known_findings.json")
 THEOREMS = os.path.join(LEAN_DIR, "theorems.json")
